@@ -205,11 +205,20 @@ Qed.
 (** * The lexer state invariant *)
 (** identifiers with namespace contain the dot the parsers split them at *)
 Definition nsb (ty : Z) : bool := Z.eqb ty T_lcIdentNS || Z.eqb ty T_ucIdentNS.
-Definition ns_ok (ty : Z) (v : list N) : Prop := nsb ty = false \/ In 46 v.
+(** white-space classes (= LexParse1Model.isWS); their values never start with 'T' (so no such token has the value "Type") *)
+Definition isWSty (ty : Z) : bool :=
+  Z.eqb ty T_comment || Z.eqb ty (ty_chr tk_whiteSpace) || Z.eqb ty (ty_chr tk_tab) || Z.eqb ty T_newLine.
+Definition ns_ok (ty : Z) (v : list N) : Prop :=
+  (nsb ty = false \/ In 46 v) /\ (isWSty ty = true -> hd 0 v <> 84).
 Definition tok_ns_ok (t : token) : Prop := ns_ok (t_type t) (t_val t).
 
 Lemma nsb_chr c : nsb (ty_chr c) = false.
 Proof. unfold nsb, ty_chr. apply orb_false_iff. split; apply Z.eqb_neq; vm_compute; destruct c; discriminate. Qed.
+
+Lemma isWSty_chr c : isWSty (ty_chr c) = true -> c <> 84.
+Proof. intros H ->. vm_compute in H. discriminate. Qed.
+
+Ltac ns_closed := split; [left; reflexivity|let H := fresh in intros H; vm_compute in H; discriminate H].
 
 Definition consumed (st : lstate) : list N := vals (rev (l_rtoks st)).
 
@@ -253,11 +262,11 @@ Qed.
 
 (** an [advance] over a line terminator followed by the line bookkeeping of nextToken *)
 Lemma advance_newline_good s st w r n :
-  good s st -> l_str st = (w ++ [10]) ++ r -> n = length (w ++ [10]) -> no10 w ->
+  good s st -> l_str st = (w ++ [10]) ++ r -> n = length (w ++ [10]) -> no10 w -> hd 0 (w ++ [10]) <> 84 ->
   exists tok st', advance n T_newLine st = Some (tok, st') /\ good s (newline_pos st') /\ l_str st' = r /\
                   l_rtoks st' = tok :: l_rtoks st.
 Proof.
-  intros G Hs -> H10. rewrite (advance_app _ _ _ _ Hs).
+  intros G Hs -> H10 Hhd. rewrite (advance_app _ _ _ _ Hs).
   eexists. eexists. split; [reflexivity|]. split; [|cbn; auto].
   split; cbn [l_str l_rtoks l_pos t_pos t_val newline_pos p_off p_line].
   - unfold consumed. cbn [l_rtoks l_str l_pos newline_pos rev]. rewrite vals_snoc. cbn [t_val]. rewrite <- app_assoc, <- Hs. apply G.
@@ -265,7 +274,7 @@ Proof.
     rewrite (pos_spec_newline _ _ H10). fold (consumed st). rewrite <- (g_pos _ _ G). reflexivity.
   - cbn [rev]. apply toks_pos_ok_snoc. split; [apply G|]. cbn [t_pos app]. apply G.
   - constructor; [destruct w; discriminate|apply G].
-  - constructor; [left; reflexivity|apply G].
+  - constructor; [split; [left; reflexivity|intros _; exact Hhd]|apply G].
 Qed.
 
 (** * One call of nextToken *)
@@ -293,22 +302,23 @@ Lemma adv_err_good s st v r n k :
   good s st -> l_str st = v ++ r -> n = length v -> v <> [] -> no10 v -> step_ok s st (adv_err n k st).
 Proof.
   intros G Hs Hn Hne H10.
-  destruct (advance_good s st v r n T_undefined G Hs Hn Hne H10 (or_introl eq_refl)) as (tok & st' & E & G' & Hr & Ht & _).
+  destruct (advance_good s st v r n T_undefined G Hs Hn Hne H10 ltac:(ns_closed)) as (tok & st' & E & G' & Hr & Ht & _).
   unfold adv_err. rewrite E. eexists st', (Some _). split; [reflexivity|]. split; [exact G'|]. split.
   - rewrite Hr, Hs. apply len_lt_app. exact Hne.
   - cbn [err_ok e_tok e_outer]. eexists. split; [exact Ht|reflexivity].
 Qed.
 
 Lemma adv_newline_good s st w r n :
-  good s st -> l_str st = (w ++ [10]) ++ r -> n = length (w ++ [10]) -> no10 w -> step_ok s st (adv_newline n st).
+  good s st -> l_str st = (w ++ [10]) ++ r -> n = length (w ++ [10]) -> no10 w -> hd 0 (w ++ [10]) <> 84 ->
+  step_ok s st (adv_newline n st).
 Proof.
-  intros G Hs Hn H10. destruct (advance_newline_good s st w r n G Hs Hn H10) as (tok & st' & E & G' & Hr & _).
+  intros G Hs Hn H10 Hhd. destruct (advance_newline_good s st w r n G Hs Hn H10 Hhd) as (tok & st' & E & G' & Hr & _).
   unfold adv_newline. rewrite E. exists (newline_pos st'), None. split; [reflexivity|]. split; [exact G'|]. split; [|exact I].
   cbn [newline_pos l_str]. rewrite Hr, Hs. apply len_lt_app. destruct w; discriminate.
 Qed.
 
 (** ** the helper lexers *)
-Ltac leaf_ok V R := eapply (adv_ok_good _ _ V R); [eassumption| | | | |try first [left; reflexivity|left; apply nsb_chr]].
+Ltac leaf_ok V R := eapply (adv_ok_good _ _ V R); [eassumption| | | | |try first [ns_closed|split; [left; apply nsb_chr|let H := fresh in intros H; apply isWSty_chr in H; exact H]]].
 Ltac leaf_err V R := eapply (adv_err_good _ _ V R); [eassumption| | | |].
 
 Lemma no10_1 c : c <> 10 -> no10 [c].
@@ -435,9 +445,9 @@ Proof.
   - leaf_err ((c :: w') ++ [46] ++ c2 :: w2') r2; auto; discriminate.
   - destruct (lowerCase c2).
     + leaf_ok ((c :: w') ++ [46] ++ c2 :: w2') r2; auto; try discriminate.
-      right. apply in_or_app. right. left. reflexivity.
+      split; [right; apply in_or_app; right; left; reflexivity|]. intros H; vm_compute in H; discriminate H.
     + leaf_ok ((c :: w') ++ [46] ++ c2 :: w2') r2; auto; try discriminate.
-      right. apply in_or_app. right. left. reflexivity.
+      split; [right; apply in_or_app; right; left; reflexivity|]. intros H; vm_compute in H; discriminate H.
 Qed.
 
 (** ** comments: the end-of-line search and the UTF-8 scan *)
@@ -585,7 +595,7 @@ Proof.
       * rewrite firstn_length_le; lia.
       * destruct i; [lia|]. discriminate.
       * apply no10_app_l in Hno'. exact Hno'.
-      * left; reflexivity.
+      * split; [left; reflexivity|]. intros _. destruct i; [lia|]. discriminate.
       * rewrite Ea.
         assert (S1 : step_ok s st1 (adv_err 1 E_utf8 st1)).
         { leaf_err [nth i (47 :: t) 0] (skipn (S i) (47 :: t)); [exact Hr1|reflexivity|discriminate|].
@@ -598,6 +608,7 @@ Proof.
       * rewrite firstn_length_le; lia.
       * destruct index; [lia|]. discriminate.
       * exact Hno.
+      * split; [left; reflexivity|]. intros _. destruct index; [lia|]. discriminate.
   - destruct (hasPrefix (47 :: t) [47; 42]) eqn:E2.
     + apply hasPrefix_app in E2. destruct E2 as [r Hr].
       leaf_err [47; 42] r; [rewrite Hs; exact Hr|reflexivity|discriminate|reflexivity].
@@ -613,10 +624,10 @@ Proof.
   destruct (N.eqb_spec c 13) as [->|N13].
   { destruct (hasPrefix (13 :: t) [13; 10]) eqn:E.
     - apply hasPrefix_app in E. destruct E as [r Hr].
-      eapply (adv_newline_good _ _ [13] r); [exact G|rewrite Hs, Hr; reflexivity|reflexivity|reflexivity].
+      eapply (adv_newline_good _ _ [13] r); [exact G|rewrite Hs, Hr; reflexivity|reflexivity|reflexivity|discriminate].
     - leaf_err [13] t; [exact Hs|reflexivity|discriminate|reflexivity]. }
   destruct (N.eqb_spec c 10) as [->|N10].
-  { eapply (adv_newline_good _ _ [] t); [exact G|exact Hs|reflexivity|reflexivity]. }
+  { eapply (adv_newline_good _ _ [] t); [exact G|exact Hs|reflexivity|reflexivity|discriminate]. }
   destruct (N.eqb_spec c 61) as [->|N61].
   { destruct (hasPrefix (61 :: t) [61; 62]) eqn:E.
     - apply hasPrefix_app in E. destruct E as [r Hr].
@@ -736,7 +747,7 @@ Proof.
     + unfold recombineTokens. cbn [r_all r_rest]. fold (vals (rev (l_rtoks st) ++ [eoft])). rewrite vals_snoc, !app_nil_r. exact Hrec.
     + apply toks_pos_ok_snoc. split; [apply G|]. cbn [app t_pos eoft]. apply G.
     + destruct Hp as [suf Hsuf]. exists suf. exact Hsuf.
-    + apply Forall_app. split; [apply Forall_rev; apply G|]. constructor; [left; reflexivity|constructor].
+    + apply Forall_app. split; [apply Forall_rev; apply G|]. constructor; [ns_closed|constructor].
     + intros a t b Eab Hv.
       destruct (snoc_split_unique (fun t => t_val t <> []) (rev (l_rtoks st)) eoft) with (a := a) (t := t) (b := b) as [Hb Ht].
       * apply Forall_rev. apply G.
@@ -946,6 +957,7 @@ Record wf_tokens (s : list N) (ts : list token) : Prop := mkWf {
   wf_pos : toks_pos_ok [] ts;
   wf_vals : vals ts = s;
   wf_eof : exists init eoft, ts = init ++ [eoft] /\ t_type eoft = T_eof /\ Forall (fun t => t_val t <> []) init;
+  wf_eof_val : forall init eoft, ts = init ++ [eoft] -> t_val eoft = [];
   wf_ns : Forall tok_ns_ok ts }.
 
 Theorem front_tokens_wf o s toks : parseFront o s = Ok (F_tokens toks) -> wf_tokens s toks.
@@ -957,5 +969,6 @@ Proof.
   - rewrite Hall. apply L.
   - exact Hv.
   - exists init, (mkTok T_eof [] p). auto.
+  - intros init' eoft' E'. rewrite Hi in E'. apply app_inj_tail in E'. destruct E' as [_ <-]. reflexivity.
   - rewrite Hall. apply L.
 Qed.
